@@ -291,6 +291,23 @@ pub fn templates(seed: u64, n_random_each: usize, steps: usize) -> Vec<Scenario>
             push(&format!("burst-{k}-then-release"), c, ops, &mut rng, &mut out);
         }
 
+        // T8b: an un-polled request holds an idle connection while the freed slot is refilled, then it is cancelled (C15)
+        for m in [1usize, 2] {
+            let mut c = cfgs(&mut rng);
+            c.max_idle_per_host = m;
+            c.idle_timeout_ms = None;
+            let mut ops = vec![];
+            for r in 0..=m {
+                ops.extend([Op::Issue { origin: 0, h2: false }, Op::Poll(r), Op::DialOk(r), Op::Poll(r), Op::HsOk(r), Op::Poll(r)]);
+            }
+            for r in 0..m {
+                ops.extend([Op::Respond(r), Op::Poll(r), Op::BodyDone(r), Op::Bg]);
+            }
+            ops.push(Op::Issue { origin: 0, h2: false });
+            ops.extend([Op::Respond(m), Op::Poll(m), Op::BodyDone(m), Op::Bg, Op::Bg, Op::Cancel(m + 1), Op::Bg]);
+            push(&format!("unpolled-request-returns-idle-connection-to-full-list-{m}"), c, ops, &mut rng, &mut out);
+        }
+
         // T9: several origins at once (C06)
         let mut c = cfgs(&mut rng);
         c.origins = vec![origin("http://a.test"), origin("https://a.test"), origin("http://a.test:81"), origin("http://A.test"), origin("http://b.test"), origin("http://a.test:443"), origin("https://a.test:80"), origin("http://a.test:80")];
